@@ -87,40 +87,46 @@ theorem assign_without_test_accepts_constant :
   `TypeChecker::expr` implies a declarative typing. NOT proved (there is no
   Lean model of the inference algorithm as a whole).
   What is proved instead concerns the ORACLE that decides which mutants count:
-  on the core fragment (literals, variables, unary and binary operators,
-  if/else, blocks with `let` and expression statements) the flexible types of
+  on the fragment: literals, variables, constants, field access, unary and
+  binary operators, if (with and without else), while, blocks with `let` and
+  expression statements, calls of script functions, assignment and compound
+  assignment to locals and their fields — the flexible types of
   `D` never cause a rejection: if SOME way of filling in the omitted literal
   suffixes and `let` annotations (`fillsE e e'`) gives a script that the plain
   ground reading of the rules accepts, then `D` accepts the script as written.
   Contrapositive: a script `D` rejects has no well-typed completion — it is
-  ill-typed whatever inference picks. Outside the fragment (`match`, loops,
-  calls, records, `?`, `return`, …) this is argued in the comments of
+  ill-typed whatever inference picks. Outside the fragment (`match`, `for`,
+  record / list / enum / Option constructors, `?`, `return`, f-strings) this is
+  argued in the comments of
   Model/Typing.lean and tested (every generated well-typed original must be
   accepted by `D`: 0 slips in 400 000), not proved. -/
 
 /-- **`declarative_checker_monotone_partial`** (expressions). -/
-theorem declarative_checker_monotone_partial (env : Env) (ctx : Ctx) (e e' : Expr) (g g' : Gamma)
+theorem declarative_checker_monotone_partial (env : Env) (henv : envGround env = true) (ctx : Ctx)
+    (e e' : Expr) (g g' : Gamma)
     (tg : Ty) (d' : Bool) (hf : fillsE e e' = true) (hg : gammaInst g g' = true)
     (h : synth env ctx g' e' = .ok (tg, d')) :
     ∃ tf, synth env ctx g e = .ok (tf, false) ∧ inst tf tg = true ∧ ground tg = true :=
-  (monoE env ctx e e' g g' tg d' hf hg h).2
+  (monoE env henv ctx e e' g g' tg d' hf hg h).2
 
 /-- … hence what `D` rejects has no well-typed completion -/
-theorem declarative_rejection_sound_partial (env : Env) (ctx : Ctx) (e e' : Expr) (g g' : Gamma)
+theorem declarative_rejection_sound_partial (env : Env) (henv : envGround env = true) (ctx : Ctx)
+    (e e' : Expr) (g g' : Gamma)
     (hf : fillsE e e' = true) (hg : gammaInst g g' = true)
     (hrej : ∀ t d, synth env ctx g e ≠ .ok (t, d)) :
     ∀ t d, synth env ctx g' e' ≠ .ok (t, d) := by
   intro t d h
-  obtain ⟨tf, h1, _, _⟩ := declarative_checker_monotone_partial env ctx e e' g g' t d hf hg h
+  obtain ⟨tf, h1, _, _⟩ := declarative_checker_monotone_partial env henv ctx e e' g g' t d hf hg h
   exact hrej tf false h1
 
 /-- the same for a whole function item: if the completion of the body passes,
     the function as written passes -/
-theorem declarative_fn_monotone_partial (env : Env) (p : Prog) (n : Nat) (params : List (Nat × Ty))
+theorem declarative_fn_monotone_partial (env : Env) (henv : envGround env = true) (p : Prog) (n : Nat)
+    (params : List (Nat × Ty))
     (rt : Ty) (body body' : Block) (hf : fillsB body body' = true)
     (h : checkDecl env p (.fn n params rt body') = .ok ()) :
     checkDecl env p (.fn n params rt body) = .ok () :=
-  checkDecl_fn_mono env p n params rt body body' hf h
+  checkDecl_fn_mono env henv p n params rt body body' hf h
 
 /-- non-vacuity: `let x = 5; x + 1u8` is accepted through its completion
     `let x: u8 = 5u8; x + 1u8`, and `5 + true` is rejected -/
